@@ -193,6 +193,41 @@ fn sequences<T: Clone>(alpha: &[T], max: usize) -> Vec<Vec<T>> {
     out
 }
 
+/// designations that a careless comparison could take for `name`: one letter in the other case, all lower / upper case,
+/// one character replaced by a look-alike, one more / one fewer trailing character
+fn near_names(name: Option<&[u8]>) -> Vec<Vec<u8>> {
+    let mut v: Vec<Vec<u8>> = vec![];
+    let Some(n) = name else { return v };
+    for i in 0..n.len() {
+        if n[i].is_ascii_alphabetic() {
+            let mut x = n.to_vec();
+            x[i] ^= 0x20;
+            v.push(x);
+        }
+        for (a, b) in [(b'0', b'O'), (b'-', b'+'), (b'+', b'-'), (b'Z', b'z'), (b'9', b'8')] {
+            if n[i] == a {
+                let mut x = n.to_vec();
+                x[i] = b;
+                v.push(x);
+            }
+        }
+    }
+    v.push(n.to_ascii_lowercase());
+    v.push(n.to_ascii_uppercase());
+    if n.len() > 3 {
+        v.push(n[..n.len() - 1].to_vec());
+    }
+    if n.len() < 7 {
+        let mut x = n.to_vec();
+        x.push(*n.last().unwrap());
+        v.push(x);
+    }
+    v.retain(|x| x.as_slice() != n && x.len() >= 3 && x.len() <= 7);
+    v.sort();
+    v.dedup();
+    v
+}
+
 pub fn run(args: &Args) -> i32 {
     let rec = Recorder::new(args, "exploration");
     let cyc = Cycle::build();
@@ -278,6 +313,9 @@ pub fn run(args: &Args) -> i32 {
                 (MType::from_bytes(base.off, base.dst, None), base.name().is_none()),
                 (MType::from_bytes(base.off, base.dst, Some(b"EST")), base.name() == Some(b"EST")),
             ]
+            .into_iter()
+            .chain(near_names(base.name()).into_iter().map(|n| (MType::from_bytes(base.off, base.dst, Some(&n)), false)))
+            .collect()
         };
         let bases = [MType::new(-18000, false, Some("EST")), MType::new(-18000, false, None), MType::new(i32::MAX, true, Some("A-+0z9Z")), MType::new(i32::MIN + 1, false, Some("abc"))];
         for base in &bases {
@@ -318,7 +356,7 @@ pub fn run(args: &Args) -> i32 {
         let name_only = MRule::alt(&cyc, RuleSpec { std_off: -18000, dst_off: -18000, ..spec }, est, MType::new(-18000, false, Some("ESX")));
         for rule in [us.clone(), same, name_only] {
             for &last in &lasts {
-                for last_type in [MType::new(-18000, false, Some("EST")), MType::new(-14400, true, Some("EDT")), MType::new(-14400, true, Some("EST")), MType::new(-18000, true, Some("EST")), MType::new(-14400, false, Some("EDT")), MType::new(-14400, true, None), MType::new(-18000, false, Some("ESX"))] {
+                for last_type in [MType::new(-18000, false, Some("EST")), MType::new(-14400, true, Some("EDT")), MType::new(-14400, true, Some("EST")), MType::new(-18000, true, Some("EST")), MType::new(-14400, false, Some("EDT")), MType::new(-14400, true, None), MType::new(-18000, false, Some("ESX")), MType::new(-18000, false, Some("Est")), MType::new(-18000, false, Some("est")), MType::new(-14400, true, Some("EDt")), MType::new(-14400, true, Some("edt")), MType::new(-18000, false, Some("ESt"))] {
                     for leaps in [vec![], vec![(78_796_800i64, 1i32)]] {
                         let types = vec![MType::new(-17762, false, Some("LMT")), last_type];
                         let r = Raw { trans: vec![(last, 1)], types, leaps, rule: Some(rule.clone()) };
